@@ -29,6 +29,9 @@ type c15Input struct {
 	Clone    bool `json:"clone,omitempty"`
 	Lose     bool `json:"lose,omitempty"`
 	ReadBuf  int  `json:"read_buf,omitempty"`
+	// Mixed (api write): the peer takes the first part of the first record with a short Read, then a whole record
+	// with ReadFrom, then the rest with Read: each call returns its own bytes
+	Mixed bool `json:"mixed,omitempty"`
 }
 
 func c15Mode(suite uint16) string {
@@ -127,6 +130,19 @@ func c15AddCase(out *emit.Out, scenario string, in c15Input) {
 			if in.ReadBuf > 0 && in.API == "write" {
 				buf = buf[:in.ReadBuf]
 			}
+			if in.Mixed {
+				// wait until both records have arrived, so that ReadFrom does not block with the rest of the first one pending
+				c.SetReadDeadline(time.Now().Add(200 * time.Millisecond))
+				k, err := c.Read(buf[:in.ReadBuf])
+				if err == nil {
+					recvd = append(recvd, append([]byte(nil), buf[:k]...))
+					c.SetReadDeadline(time.Now().Add(200 * time.Millisecond))
+					big := make([]byte, 70000)
+					if k2, _, err := c.ReadFrom(big); err == nil {
+						recvd = append(recvd, append([]byte(nil), big[:k2]...))
+					}
+				}
+			}
 			misses := 0
 			for misses < 2 {
 				c.SetReadDeadline(time.Now().Add(50 * time.Millisecond))
@@ -181,6 +197,13 @@ func c15AddCase(out *emit.Out, scenario string, in c15Input) {
 		var all, got []byte
 		for _, p := range payloads {
 			all = append(all, p...)
+		}
+		if in.Mixed && len(payloads) >= 2 && len(payloads[0]) > in.ReadBuf {
+			// expected order of delivery: first part of record 1, record 2 whole, rest of record 1, then the others
+			all = append(append(append([]byte(nil), payloads[0][:in.ReadBuf]...), payloads[1]...), payloads[0][in.ReadBuf:]...)
+			for _, p := range payloads[2:] {
+				all = append(all, p...)
+			}
 		}
 		for _, q := range recvd {
 			got = append(got, q...)
@@ -334,6 +357,9 @@ func runC15(p params) error {
 		if pm <= 1000 {
 			c15AddCase(out, "server-flight-again", c15Input{PMTU: pm, Suite: su, Sizes: []int{5}, API: "write", Dir: "s2c", Lose: true})
 			c15AddCase(out, "server-flight-again", c15Input{PMTU: pm, Suite: suites[(i+2)%4], Sizes: []int{5}, API: "writeto", Dir: "c2s", Lose: true, Clone: true})
+		}
+		if mx > 300 {
+			c15AddCase(out, "write", c15Input{PMTU: pm, Suite: su, Sizes: []int{mx, mx / 2, 77}, API: "write", Dir: []string{"c2s", "s2c"}[i%2], ReadBuf: 100, Mixed: true})
 		}
 		for _, rb := range []int{1, 100, 500} {
 			c15AddCase(out, "write", c15Input{PMTU: pm, Suite: su, Sizes: []int{mx, 3*mx + 7, 1, 0, 200}, API: "write", Dir: []string{"c2s", "s2c"}[(i+rb)%2], ReadBuf: rb})
